@@ -63,7 +63,7 @@ CHECKS = {
     "C14": dict(
         text="A task raising TransientError n times (n symbolic, 0..14, decoded by z3) with/without context_update at task position 1-3; "
              "oracle: executions = min(n,10)+[n<10], terminal exactly when n>=10, attempt i+1 sees the progress of attempt i; polling "
-             "task keeps its saved context. The retry arithmetic round trip is also checked as a one-step lemma.",
+             "task keeps its saved context. The retry arithmetic and its queue round trip are also executed symbolically over SymDB (attempts and max_attempts symbolic).",
         note="Bounds: n<=14, <=3 tasks per stage, FIFO + 3 choice points of reordering (thorough). Backoff delays elapse on the virtual clock.",
         design="3/C14",
     ),
